@@ -12,6 +12,7 @@ import Pixman.Model.Combine32
 import Pixman.Lemmas.Combine
 import Pixman.Props.C04Core
 import Pixman.Props.BridgesImage
+import Pixman.Props.BridgesExtent
 import Pixman.Lemmas.CSemFacts
 /-!
   Bridges: regenerated C functions (`Pixman.Gen.CFuncs`, rewritten from /repo's working tree on every
@@ -732,4 +733,32 @@ theorem combine_multiply_ca_eq (s m d : Nat) (hs : s < 4294967296) (hm : m < 429
   first | (c32 <;> rfl) | rfl
 
 end combine32
+/-! ## pixman-glyph.c  (C17): the counter tests of `pixman_glyph_cache_thaw` / `pixman_glyph_cache_insert`
+(conditions extracted by position, see tools/gen_cfuncs.py kind "cond"), against `Glyph.stepCore` with the parameters
+of the real build, `HASH_SIZE = 32768`, `N_GLYPHS_HIGH_WATER = 16384`, `N_GLYPHS_LOW_WATER = 8192`. -/
+section glyph
+open Pixman.Glyph
+
+/-- the table parameters of the library as built (pixman-glyph.c) -/
+def realGlyphParams : Params := ⟨32768, 16384, 8192⟩
+
+/- `--cache->freeze_count == 0 && n_glyphs + n_tombstones > N_GLYPHS_HIGH_WATER` (c.freeze already decremented) -/
+theorem glyph_thaw_outer_eq (c : Cache) :
+    CFuncs.glyph_thaw_outer c.freeze c.nGlyphs c.nTomb =
+      decide (c.freeze = 0 ∧ c.nGlyphs + c.nTomb > (realGlyphParams.high : Int)) := rfl
+theorem glyph_thaw_dump_eq (c : Cache) :
+    CFuncs.glyph_thaw_dump c.nTomb = decide (c.nTomb > (realGlyphParams.high : Int)) := rfl
+theorem glyph_thaw_evict_eq (c : Cache) :
+    CFuncs.glyph_thaw_evict c.nGlyphs = decide (c.nGlyphs > (realGlyphParams.low : Int)) := rfl
+theorem glyph_insert_frozen_eq (c : Cache) :
+    CFuncs.glyph_insert_frozen c.freeze = decide (c.freeze ≤ 0) := by
+  unfold CFuncs.glyph_insert_frozen
+  by_cases h : c.freeze > 0 <;> simp [h] <;> omega
+theorem glyph_insert_full_eq (c : Cache) :
+    CFuncs.glyph_insert_full c.nGlyphs c.nTomb = full realGlyphParams c := by
+  unfold CFuncs.glyph_insert_full full realGlyphParams
+  by_cases h : c.nGlyphs + c.nTomb ≥ 32767 <;> simp [h] <;> omega
+
+end glyph
+
 end Pixman.Props.Bridges
